@@ -38,3 +38,5 @@ func Site(stack string) string {
 	}
 	return "unknown"
 }
+
+func init() { initSDKConfig() }
